@@ -3,6 +3,8 @@ C706/MS-RPCE NDR64).  None of this imports code from the repository under test. 
 Python values *and* on the symbolic proxies (it only uses operators, comparisons and to_bytes)."""
 from __future__ import annotations
 
+from symex import values as V
+
 
 def _b(items):
     from symex import values as V
@@ -263,30 +265,30 @@ def ref_getkey_response(envelope, hresult=0, referent=0x00020000):
 
 def der_oid(dotted: str):
     content = der_oid_content([int(x) for x in dotted.split(".")])
-    return cat(bytes([6]), der_len(len(content)), content)
+    return cat(bytes([6]), der_len(V.blen(content)), content)
 
 
 def der_seq(*parts):
     body = cat(*parts)
-    return cat(bytes([0x30]), der_len(len(body)), body)
+    return cat(bytes([0x30]), der_len(V.blen(body)), body)
 
 
 def der_set(*parts):
     body = cat(*parts)
-    return cat(bytes([0x31]), der_len(len(body)), body)
+    return cat(bytes([0x31]), der_len(V.blen(body)), body)
 
 
 def der_octets(b):
-    return cat(bytes([0x04]), der_len(len(b)), b)
+    return cat(bytes([0x04]), der_len(V.blen(b)), b)
 
 
 def der_utf8(s: str):
     b = s.encode("utf-8")
-    return cat(bytes([0x0C]), der_len(len(b)), b)
+    return cat(bytes([0x0C]), der_len(V.blen(b)), b)
 
 
 def der_ctx(n, constructed, body):
-    return cat(bytes([0x80 | (0x20 if constructed else 0) | n]), der_len(len(body)), body)
+    return cat(bytes([0x80 | (0x20 if constructed else 0) | n]), der_len(V.blen(body)), body)
 
 
 def ref_gcm_parameters(nonce):
@@ -303,7 +305,7 @@ def ref_dpapi_ng_blob(key_identifier, sid, enc_cek, enc_content, content_params,
     kekid = der_seq(der_octets(key_identifier), der_seq(der_oid("1.3.6.1.4.1.311.74.1"), ref_protection_descriptor(sid)))
     kekri = der_ctx(2, True, cat(bytes([2, 1, 4]), kekid, der_seq(der_oid(cek_alg)), der_octets(enc_cek)))
     eci_parts = [der_oid("1.2.840.113549.1.7.1"), der_seq(der_oid(content_alg), content_params if content_params is not None else b"")]
-    if in_envelope and len(enc_content):
+    if in_envelope and V.blen(enc_content) > 0:
         eci_parts.append(der_ctx(0, False, enc_content))
     enveloped = der_seq(bytes([2, 1, 2]), der_set(kekri), der_seq(*eci_parts))
     ci = der_seq(der_oid("1.2.840.113549.1.7.3"), der_ctx(0, True, enveloped))
